@@ -167,6 +167,49 @@ def rule_c(ctx, out):
     C09.rule_b(ctx, out)
 
 
+def rule_e(ctx, out):
+    """split_by_numbers keeps the store positions *relative to the last cut* and the cuts absolute: each round records the cut
+    `E + last` and re-bases the remaining positions by the same relative offset E.  Subtracting anything else (the absolute cut,
+    the previous offset) moves every later cut off its store."""
+    f = ctx.func(f"{GO}.split_by_numbers")
+    loops = [n for n in own_nodes(f.node) if isinstance(n, ast.While)]
+    if not loops:
+        raise AnalysisError("split_by_numbers: loop not found")
+    n = 0
+
+    def branches(stmts):
+        apps = [c for st in stmts if isinstance(st, ast.Expr) for c in [st.value] if isinstance(c, ast.Call) and call_name(c) == "append"]
+        if apps:
+            yield stmts, apps
+        for st in stmts:
+            if isinstance(st, ast.If):
+                yield from branches(st.body)
+                yield from branches(st.orelse)
+    for stmts, apps in branches(loops[0].body):
+        n += 1
+        arg = apps[0].args[0] if apps[0].args else None
+        if not (isinstance(arg, ast.BinOp) and isinstance(arg.op, ast.Add)):
+            out.bad("split_by_numbers:cut-not-relative-plus-last", f"the recorded cut `{short(arg, 40)}` is not <relative offset> + last", where(f, apps[0]))
+            continue
+        parts = [arg.left, arg.right]
+        rel = [p for p in parts if not is_name(p, "last")]
+        if len(rel) != 1:
+            out.bad("split_by_numbers:cut-not-relative-plus-last", f"the recorded cut `{short(arg, 40)}` is not <relative offset> + last", where(f, apps[0]))
+            continue
+        E = norm(rel[0])
+        rebases = [st for st in stmts if isinstance(st, ast.Assign) and is_name(st.targets[0], f.params[0])]
+        lam = [l for st in rebases for l in ast.walk(st.value) if isinstance(l, ast.Lambda)]
+        subs = [l.body for l in lam if isinstance(l.body, ast.BinOp) and isinstance(l.body.op, ast.Sub) and is_name(l.body.left, l.args.args[0].arg)]
+        if len(rebases) == 1 and len(subs) == 1 and norm(subs[0].right) == E:
+            out.ok({"function": "split_by_numbers", "cut": f"{E} + last", "remaining_positions_rebased_by": E})
+        else:
+            got = norm(subs[0].right) if subs else "nothing recognisable"
+            out.bad(f"split_by_numbers:rebase-offset-differs:{E}", f"the cut is recorded as {E} + last but the remaining store positions are re-based by {got}",
+                    where(f, rebases[0] if rebases else apps[0]))
+    if n < 2:
+        raise AnalysisError("split_by_numbers: the two cut branches were not found")
+
+
 def rule_d(ctx, out):
     """Stack variables are numbered, and their numbers are compared as numbers: the greatest variable of a sub-block's last
     instruction fixes the source stack of the next sub-block.  max/min over strings is lexicographic ('s(9)' > 's(10)')."""
@@ -184,6 +227,7 @@ def rule_d(ctx, out):
 
 
 RULES = [
+    ("C14.e", "partition cuts: relative positions are re-based by the offset of the cut", 2, rule_e),
     ("C14.d", "variable numbers are compared as numbers", 6, rule_d),
     ("C14.a", "sub-block names: one expression for writer and reader", 12, rule_a),
     ("C14.b", "split vocabulary has arities and translations", 15, rule_b),
